@@ -42,7 +42,17 @@ impl SecondaryStorage {
         let mut manifest = if options.disable_all_disk_operation {
             Manifest::new_mock()
         } else {
-            Manifest::open(options.path.join(MANIFEST_FILE_NAME), enable_fsync).await?
+            let manifest =
+                Manifest::open(options.path.join(MANIFEST_FILE_NAME), enable_fsync).await?;
+            if enable_fsync {
+                // A database that was just created must still be there after a crash: persist
+                // the entries of the DV folder and of the manifest, and of the folder itself.
+                fs::File::open(&options.path).await?.sync_data().await?;
+                if let Some(parent) = options.path.parent().filter(|p| !p.as_os_str().is_empty()) {
+                    fs::File::open(parent).await?.sync_data().await?;
+                }
+            }
+            manifest
         };
 
         let manifest_ops = manifest.replay().await?;
